@@ -49,6 +49,20 @@ def check(run):
     rows = vlib.read_ndjson(obs)
     res = validate(run, obs, q)
     viols = viols_from(res, rows)
+    # WithWriteTimeout: responses written to a client that reads nothing until the write deadline has expired
+    wobs = run.path("o04wt.ndjson")
+    run.harness(["c04wt", "-out", wobs], timeout=600)
+    wrows = vlib.read_ndjson(wobs)
+    wres = run.tlc("RespWtTrace", "INIT InitT\nNEXT NextT\nINVARIANTS AcceptedWritesArrive NothingElseArrives StreamIsFrames InOrder\nCHECK_DEADLOCK FALSE\n",
+                   env={"OBS": wobs}, workers=1, cont=True, timeout=600)
+    for v in wres.violations:
+        if v["states"]:
+            l = int(v["states"][-1]["vars"].get("l", "0"))
+            if 1 <= l <= len(wrows):
+                o = wrows[l - 1]
+                viols.append({"signature": {"monitor": v["name"], "round": o["round"]},
+                              "what": "%s false with WithWriteTimeout: writes %s, frames received %s" % (v["name"], json.dumps(o["writes"]), json.dumps(o["frames"])),
+                              "replay": {"observation": o}})
     bad = [r for r in rows if r.get("err")]
     if bad and not viols:
         raise vlib.Infra("harness could not exercise %d vectors: %s" % (len(bad), bad[0].get("err")))
